@@ -212,6 +212,7 @@ AccessPaths ==
     [path |-> "int_index",   modes |-> {"eager", "lazy"}, scaled |-> TRUE,  stream |-> "none"],
     [path |-> "chan_chunks", modes |-> {"lazy"},          scaled |-> TRUE,  stream |-> "chan"],
     [path |-> "file_chunks", modes |-> {"lazy"},          scaled |-> TRUE,  stream |-> "file"],
+    [path |-> "file_chunks_listed", modes |-> {"lazy"},   scaled |-> TRUE,  stream |-> "file"],   \* list(...) first, inspect later
     [path |-> "read_data_unscaled", modes |-> {"eager", "lazy"}, scaled |-> FALSE, stream |-> "none"],
     [path |-> "raw_data",    modes |-> {"eager"},         scaled |-> FALSE, stream |-> "none"] }
 Configs == [memmap : BOOLEAN, rawts : BOOLEAN, source : {"path", "stream"}]
